@@ -306,7 +306,10 @@ class SupervisedOPF(OPF):
                     j = int(r.generate_uniform_random_number(0, len(X_train))[0])
 
                     if self.subgraph.nodes[j].status != c.PROTOTYPE:
-                        X_train[j, :], X_val[err, :] = X_val[err, :], X_train[j, :]
+                        X_train[j, :], X_val[err, :] = (
+                            X_val[err, :].copy(),
+                            X_train[j, :].copy(),
+                        )
                         Y_train[j], Y_val[err] = Y_val[err], Y_train[j]
 
                         non_prototypes -= 1
